@@ -122,6 +122,9 @@ pub struct PollStep {
     pub restart: bool,
     /// extra delays consumed by the clock reads of this iteration (pre-emption)
     pub read_delays: Vec<i64>,
+    /// the PHC error-bound file changes to this state before the poll
+    #[serde(default)]
+    pub phc_change: Option<PhcFile>,
 }
 
 #[derive(Clone, Debug, Serialize, Deserialize, PartialEq)]
@@ -191,13 +194,15 @@ fn pollstep_strategy() -> BoxedStrategy<PollStep> {
         prop_oneof![5 => report_strategy().prop_map(Answer::Tracking), 4 => Just(Answer::Silence), 1 => Just(Answer::Malformed), 1 => Just(Answer::WrongType)],
         prop::bool::weighted(0.06),
         prop_oneof![4 => Just(vec![]), 2 => prop::collection::vec(prop_oneof![Just(0i64), 0i64..1000, 0i64..6_000_000_000], 1..5)],
+        prop_oneof![8 => Just(None), 1 => Just(Some(PhcFile::Missing)), 1 => (0i64..1_000_000).prop_map(|x| Some(PhcFile::Value(x))), 1 => Just(Some(PhcFile::Directory))],
     )
-        .prop_map(|(gap_ns, latency_ns, answer, restart, read_delays)| PollStep {
+        .prop_map(|(gap_ns, latency_ns, answer, restart, read_delays, phc_change)| PollStep {
             gap_ns,
             latency_ns,
             answer,
             restart,
             read_delays,
+            phc_change,
         })
         .boxed()
 }
@@ -227,13 +232,17 @@ fn check_c13_case(case: &PollCase, env: &mut Env) -> Verdict {
     let mut v = Verdict::default();
     // PHC error-bound file
     let phc_path = env.fresh_path("phc_error_bound");
-    let _ = std::fs::remove_file(&phc_path);
-    let _ = std::fs::remove_dir(&phc_path);
-    match &case.phc_file {
-        PhcFile::Value(x) => std::fs::write(&phc_path, format!("{}\n", x)).unwrap(),
-        PhcFile::Missing => {}
-        PhcFile::Directory => std::fs::create_dir(&phc_path).unwrap(),
-    }
+    let set_phc = |f: &PhcFile| {
+        let _ = std::fs::remove_file(&phc_path);
+        let _ = std::fs::remove_dir(&phc_path);
+        match f {
+            PhcFile::Value(x) => std::fs::write(&phc_path, format!("{}\n", x)).unwrap(),
+            PhcFile::Missing => {}
+            PhcFile::Directory => std::fs::create_dir(&phc_path).unwrap(),
+        }
+    };
+    set_phc(&case.phc_file);
+    let mut phc_now = case.phc_file.clone();
     let phc = case.phc_refid.map(|refid| PhcInfo {
         refid,
         sysfs_error_bound_path: phc_path.clone(),
@@ -253,6 +262,13 @@ fn check_c13_case(case: &PollCase, env: &mut Env) -> Verdict {
     let mut ever_answered = false;
     for (i, st) in case.steps.iter().enumerate() {
         vc.advance(st.gap_ns as i128);
+        if let Some(f) = &st.phc_change {
+            if *f != phc_now {
+                v.label("phc-file-changed-between-polls");
+            }
+            set_phc(f);
+            phc_now = f.clone();
+        }
         if st.restart {
             v.label("daemon-restart");
             poller = dv::Poller::default();
@@ -299,7 +315,7 @@ fn check_c13_case(case: &PollCase, env: &mut Env) -> Verdict {
                 }
                 if matches_phc {
                     v.label("phc-refid-match");
-                    match &case.phc_file {
+                    match &phc_now {
                         PhcFile::Value(x) => {
                             expected = format!("data phc={}", x);
                             match msg {
@@ -397,7 +413,7 @@ impl Property for C13 {
     type Case = PollCase;
     const ID: &'static str = "C13";
     fn rule() -> String {
-        "cases = a daemon start at a random uptime, PHC configuration (none | refid PHC0 | other refid), PHC error-bound file (value | missing | unreadable), then 1..40 polls: gap to the previous poll (1 s, 4.999999999 s, 5 s, 5 s + 1 ns, +-10 ms around 5 s, random), chronyd answer (Tracking with refid PHC0 / byte-swapped / off by one / truncated / 0 / random; silence; malformed reply; reply of another type), query latency, generated pre-emption delays on the individual clock reads, daemon restarts. Real ClockErrorBoundPoller, get_tracking, is_within_grace_period and one real loop iteration per poll; the query seam returns the scripted reply (deserialised by chrony-candm). Oracle: grace-period model replayed on the logged clock reads (last good answer = the monotonic read that followed it, initially 5 s before construction; no answer at reading t => grace message iff t - last_good < 5 s) and the PHC rule (value attached exactly when refids are equal; unreadable file => PHC-failure message of the right class and no measurement). Non-trivial: a silence within 10 ms of the 5 s edge, a refid near-miss, a PHC read failure, or silence before any answer.".into()
+        "cases = a daemon start at a random uptime, PHC configuration (none | refid PHC0 | other refid), PHC error-bound file (value | missing | unreadable; it may change to another state before any poll, while chronyd keeps reporting the same reference time), then 1..40 polls: gap to the previous poll (1 s, 4.999999999 s, 5 s, 5 s + 1 ns, +-10 ms around 5 s, random), chronyd answer (Tracking with refid PHC0 / byte-swapped / off by one / truncated / 0 / random; silence; malformed reply; reply of another type), query latency, generated pre-emption delays on the individual clock reads, daemon restarts. Real ClockErrorBoundPoller, get_tracking, is_within_grace_period and one real loop iteration per poll; the query seam returns the scripted reply (deserialised by chrony-candm). Oracle: grace-period model replayed on the logged clock reads (last good answer = the monotonic read that followed it, initially 5 s before construction; no answer at reading t => grace message iff t - last_good < 5 s) and the PHC rule (value attached exactly when refids are equal; unreadable file => PHC-failure message of the right class and no measurement). Non-trivial: a silence within 10 ms of the 5 s edge, a refid near-miss, a PHC read failure, or silence before any answer.".into()
     }
     fn cases(tier: Tier) -> u64 {
         match tier {
@@ -420,6 +436,7 @@ impl Property for C13 {
             ("outage-within-grace", 0.3),
             ("outage-beyond-grace", 0.3),
             ("phc-refid-match", 0.2),
+            ("phc-file-changed-between-polls", 0.2),
             ("daemon-restart", 0.2),
         ]
     }
